@@ -214,6 +214,15 @@ class Gen:
             dst = r.choice([0, 1, 32, 64, 100])
             if kind == "RETURNDATACOPY" and r.random() < 0.7:
                 size, src = r.choice([0, 0, 1, 32]), 0
+            if kind == "CODECOPY" and r.random() < 0.4:
+                # a window that starts inside the code and runs past its end, over memory that is already non-zero: the
+                # EVM writes zeros for the part beyond the code
+                self.count("copy:CODECOPY-across-code-end")
+                k = r.choice([0, 1, 4, 31, 32])
+                size = r.choice([1, 8, 31, 32, 33, 64])
+                dst = r.choice([0, 32, 64])
+                dirty = [("push", (1 << 256) - 1), ("push", dst), "MSTORE", ("push", (1 << 256) - 1), ("push", dst + 32), "MSTORE"]
+                return dirty + [("push", size), ("push", k), "CODESIZE", "SUB", ("push", dst), "CODECOPY"]
             return [("push", size), ("push", src), ("push", dst), kind]
         if k == "call":
             return self.call_stmt()
